@@ -187,6 +187,20 @@ def run_history(ops):
                 fail = f'hash() of the frozen message {pool[op[1]]!r} raised {type(e).__name__}: {e}'
             if k in ('freeze', 'thaw', 'eq') and op[1] is not None and fail is None:
                 fail = f'{k} raised {type(e).__name__}: {e}'
+            if k == 'copy' and fail is None and CLASSES.get(type(pool[op[1]]).__name__) in ('Message', 'MetaMessage') \
+                    and name in ('ValueError', 'TypeError'):
+                # copy with overrides and a fresh construction with those values agree on what they reject as well
+                try:
+                    kw = {n_: _real(v_) for n_, v_ in op[3]}
+                    if op[2] is None:
+                        d = dict(vars(pool[op[1]]))
+                        d.update(kw)
+                        base = {'Message': mido.Message, 'MetaMessage': mido.MetaMessage}[CLASSES[type(pool[op[1]]).__name__]]
+                        fresh = base(**d)
+                        fail = (f'copy with overrides {kw} is rejected ({type(e).__name__}: {e}) although a fresh message with those '
+                                f'values is accepted: {fresh!r}')
+                except Exception:      # noqa: BLE001 - both reject
+                    pass
         # frame: nothing but the touched object may have changed
         after = snapshot()
         for i, (b, a) in enumerate(zip(before, after)):
@@ -445,7 +459,7 @@ def _overrides(rng, fam, t, one=False):
             if name == 'time':
                 kw.append(('time', rng.choice([0, 7, 2.5, 'x', None, -1, -2, -1, -2])))
             elif name == 'data' and rng.random() < 0.25:
-                kw.append((name, rng.choice([SX((1, 2)), SX((1, 200)), SX((7, 1.5)), SX(())])))
+                kw.append((name, rng.choice([SX((1, 2)), SX((1, 200)), SX((7, 1.5)), SX(()), SX((240, 1, 2, 247)), SX((240, 5)), SX((5, 247)), SX((247,))])))
             elif rng.random() < 0.25:
                 kw.append((name, rng.choice([-1, 200, 2 ** 20, 1.5, 'x', None, [1], 5 if name == 'data' else (1,)])))
             else:
@@ -472,6 +486,36 @@ def _overrides(rng, fam, t, one=False):
             else:
                 kw.append(('type_byte', rng.choice([0x60, 0x7e, 300])))
     return kw
+
+
+def sysex_frame_overrides_fail():
+    """Sysex data holding the framing bytes (0xF0 in front, 0xF7 at the end: what a dump or a MIDI file payload looks like):
+    constructor, copy with overrides and from_dict agree on every such value, for plain and frozen messages — a copy with
+    overrides IS a fresh message with those values."""
+    import mido
+    from mido.frozen import freeze_message
+
+    def outcome(f):
+        try:
+            m = f()
+            return ('ok', type(m).__name__.replace('Frozen', ''), tuple(m.data), m.time)
+        except (ValueError, TypeError) as e:
+            return ('err',)
+    for data in ((0xF0, 1, 2, 0xF7), (0xF0, 1, 2), (1, 2, 0xF7), (0xF7,), (0xF0,), (0xF0, 0xF7), [0xF0, 3, 0xF7], b'\xf0\x01\xf7', (1, 0xF7, 2),
+                 (1, 2), ()):
+        base = mido.Message('sysex', data=(9,), time=3)
+        want = outcome(lambda: mido.Message('sysex', data=data, time=3))
+        for how, f in (('copy(data=...)', lambda: base.copy(data=data)),
+                       ('copy(data=...) of the frozen message', lambda: freeze_message(base).copy(data=data)),
+                       ('from_dict', lambda: mido.Message.from_dict({'type': 'sysex', 'data': data, 'time': 3})),
+                       ('copy(data=..., time=3) of another sysex message', lambda: mido.Message('sysex').copy(data=data, time=3))):
+            got = outcome(f)
+            if got != want:
+                return (f'Message("sysex", data={data!r}, time=3) gives {want}, {how} with the same values gives {got}: a copy with '
+                        f'overrides is not the freshly constructed message')
+        if base.data != (9,):
+            return f'the original changed: {base!r}'
+    return None
 
 
 def run(ck):
@@ -508,6 +552,11 @@ def run(ck):
             impl.append(lines[2 * j + 1])
     ck.sample({'ops': repr(hs[3])})
     ck.compare('heap', reqs, impl, ck.driver.run(reqs))
+    f = sysex_frame_overrides_fail()
+    ck.evaluations += 1
+    ck.count('sysex_frame_overrides')
+    if f:
+        ck.oracle_fail({'sysex_frame_overrides': True}, f)
     envprobe.check(ck, ['frozen'])
     return ck.finish(RULE, assumptions=['"assigning attributes" is setattr of existing attribute names; in-place mutation of a list the caller handed in is not an assignment',
                                         'hash values are compared through the sorted item list they are computed from'])
@@ -516,6 +565,8 @@ def run(ck):
 def oracle(case):
     if 'environment' in case:
         return envprobe.oracle(case)
+    if 'sysex_frame_overrides' in case:
+        return sysex_frame_overrides_fail()
     return run_history(eval(case['ops']))[1]
 
 
